@@ -104,7 +104,7 @@ pub fn run(ctx: &Ctx, rep: &mut Report) {
     let mut cfgs = lattice_systematic(512, 1024, false);
     let nrand = if ctx.thorough() { 400 } else { 40 };
     cfgs.extend(lattice_random(&mut ctx.rng("c13-lattice", 0), nrand, 512, 1024));
-    let reps = if ctx.thorough() { 24 } else { 4 };
+    let reps = if ctx.thorough() { 160 } else { 4 };
     // all RNG-derived nonces seen by this shard: no value may ever repeat across different runs
     let mut global: HashMap<[u8; 32], String> = HashMap::new();
     let mut id = 0usize;
